@@ -1,10 +1,11 @@
 //! Deterministic thread-baton scheduler.
 //!
-//! Every concurrent task is an OS thread; exactly one of them holds the baton
-//! at any time, all others are parked on a condition variable. The code under
-//! test calls `sched_point(site)` (verif-hooks) between two accesses to shared
-//! state; the callback installed by the harness lands in [`Baton::point`],
-//! which lets the *schedule* decide who runs next.
+//! Every concurrent task is an OS thread (a long-lived worker of the calling
+//! shard's executor, with its own current-thread tokio runtime); exactly one of
+//! them holds the baton at any time, all others are parked on their condition
+//! variable. The code under test calls `sched_point(site)` (verif-hooks)
+//! between two accesses to shared state; the callback installed by the harness
+//! lands in [`Baton::point`], which lets the *schedule* decide who runs next.
 //!
 //! Schedule = `Vec<u8>` of choices consumed left to right, one element per
 //! *choice point* (a point with at least two options):
@@ -26,10 +27,12 @@
 //! (a site under a real lock, a stuck thread): the run is aborted and reported
 //! as infrastructure trouble, never as a verdict.
 
-use std::sync::{Arc, Condvar, Mutex};
+use std::sync::atomic::{AtomicU64, Ordering};
+use std::sync::{Arc, Condvar, Mutex, MutexGuard};
 use std::time::{Duration, Instant};
 
 pub const HANDOVER_LIMIT: Duration = Duration::from_secs(60);
+pub const MAX_TASKS: usize = 3;
 
 /// One consumed choice (the DFS needs `options`, the pre-emption bound needs `preemptive`).
 #[derive(Debug, Clone, Copy, PartialEq, Eq)]
@@ -41,15 +44,18 @@ pub struct Choice {
 
 #[derive(Debug, Clone)]
 pub enum Entry<E> {
-    /// task `thread` reached `site`; `next` ran afterwards
-    Point { thread: u8, site: &'static str, next: u8 },
-    /// task `thread` finished; `next` ran afterwards (None: nobody left)
-    End { thread: u8, next: Option<u8> },
+    /// task `thread` reached `site`; `next` ran afterwards; `choice`: a schedule element was consumed
+    Point { thread: u8, site: &'static str, next: u8, choice: bool },
+    /// task `thread` finished; `choice`: a schedule element was consumed to pick the next task
+    End { thread: u8, choice: bool },
     /// history event recorded by the running task
     Event(E),
 }
 
-struct Inner<E> {
+struct Inner<E, J> {
+    /// run counter: a worker takes a job once per epoch
+    epoch: u64,
+    job: Option<Arc<J>>,
     /// who holds the baton (None: the controller)
     current: Option<usize>,
     done: Vec<bool>,
@@ -60,12 +66,21 @@ struct Inner<E> {
     /// bumped at every hand-over and every log entry: progress indicator for the watchdog
     progress: u64,
     aborted: Option<String>,
+    shutdown: bool,
 }
 
-pub struct Baton<E> {
-    m: Mutex<Inner<E>>,
+/// How long a waiting thread polls the hand-over word before it parks on its
+/// condition variable. The steps between two points are far shorter than a
+/// futex wake-up, so a short poll removes most of the hand-over latency; the
+/// bound keeps a loaded machine from being burdened.
+const SPIN: u32 = 3000;
+
+pub struct Baton<E, J> {
+    /// mirrors (`epoch`, `current`) for the pollers: epoch << 8 | (current + 1), 0 = controller
+    turn: AtomicU64,
+    m: Mutex<Inner<E, J>>,
     /// one condition variable per task (a hand-over wakes exactly the next task) …
-    cvs: Vec<Condvar>,
+    cvs: [Condvar; MAX_TASKS],
     /// … and one for the controller
     ctl: Condvar,
 }
@@ -80,22 +95,42 @@ pub struct Outcome<E> {
     pub unused: usize,
 }
 
-impl<E: Send + 'static> Baton<E> {
-    pub fn new(tasks: usize, schedule: &[u8]) -> Arc<Self> {
+impl<E: Send + 'static, J: Send + Sync + 'static> Baton<E, J> {
+    pub fn new() -> Arc<Self> {
         Arc::new(Baton {
+            turn: AtomicU64::new(0),
             m: Mutex::new(Inner {
+                epoch: 0,
+                job: None,
                 current: None,
-                done: vec![false; tasks],
-                schedule: schedule.to_vec(),
+                done: Vec::new(),
+                schedule: Vec::new(),
                 pos: 0,
                 choices: Vec::new(),
                 log: Vec::new(),
                 progress: 0,
                 aborted: None,
+                shutdown: false,
             }),
-            cvs: (0..tasks).map(|_| Condvar::new()).collect(),
+            cvs: [Condvar::new(), Condvar::new(), Condvar::new()],
             ctl: Condvar::new(),
         })
+    }
+
+    fn publish(&self, g: &Inner<E, J>) {
+        let who = g.current.map_or(0, |c| c as u64 + 1);
+        self.turn.store(g.epoch << 8 | who, Ordering::Release);
+    }
+
+    /// Poll until the baton is with `who` (0 = controller) in an epoch later than `after`, or give up.
+    fn poll(&self, who: u64, after: u64) {
+        for _ in 0..SPIN {
+            let t = self.turn.load(Ordering::Acquire);
+            if t & 0xff == who && t >> 8 > after {
+                return;
+            }
+            std::hint::spin_loop();
+        }
     }
 
     fn wake_everyone(&self) {
@@ -105,13 +140,13 @@ impl<E: Send + 'static> Baton<E> {
         self.ctl.notify_all();
     }
 
-    fn lock(&self) -> std::sync::MutexGuard<'_, Inner<E>> {
+    fn lock(&self) -> MutexGuard<'_, Inner<E, J>> {
         // the scheduler's own mutex is never held while the code under test runs,
         // so poisoning can only come from a bug in this file
         self.m.lock().unwrap_or_else(|e| e.into_inner())
     }
 
-    fn take_choice(g: &mut Inner<E>, options: usize, preemptive: bool) -> usize {
+    fn take_choice(g: &mut Inner<E, J>, options: usize, preemptive: bool) -> usize {
         debug_assert!(options >= 2);
         let raw = if g.pos < g.schedule.len() { g.schedule[g.pos] } else { 0 };
         g.pos += 1;
@@ -120,21 +155,60 @@ impl<E: Send + 'static> Baton<E> {
         chosen
     }
 
+    /// Controller: prepare a run of `tasks` tasks (nobody runs yet).
+    pub fn begin(&self, tasks: usize, schedule: &[u8], job: Arc<J>) {
+        assert!(tasks <= MAX_TASKS);
+        let mut g = self.lock();
+        g.epoch += 1;
+        g.job = Some(job);
+        g.current = None;
+        g.done = vec![false; tasks];
+        g.schedule = schedule.to_vec();
+        g.pos = 0;
+        g.choices.clear();
+        g.log.clear();
+        g.aborted = None;
+        self.publish(&g);
+    }
+
     /// Controller: give the baton to the first task.
     pub fn start(&self) {
         let mut g = self.lock();
         let n = g.done.len();
+        if n == 0 {
+            return;
+        }
         let first = if n >= 2 { Self::take_choice(&mut g, n, false) } else { 0 };
         g.current = Some(first);
         g.progress += 1;
+        self.publish(&g);
         drop(g);
         self.cvs[first].notify_all();
     }
 
-    /// Park until `me` holds the baton. Unwinds with [`Aborted`] if the run was aborted.
-    fn wait_for(&self, me: usize, mut g: std::sync::MutexGuard<'_, Inner<E>>) {
+    /// Worker `me`: park until it is given the baton in a run it has not served yet.
+    /// `None` = the executor shuts down.
+    pub fn next_job(&self, me: usize, last_epoch: u64) -> Option<(u64, Arc<J>)> {
+        self.poll(me as u64 + 1, last_epoch);
+        let mut g = self.lock();
         loop {
-            if g.aborted.is_some() {
+            if g.shutdown {
+                return None;
+            }
+            if g.epoch > last_epoch && g.current == Some(me) && g.aborted.is_none() {
+                if let Some(j) = &g.job {
+                    return Some((g.epoch, Arc::clone(j)));
+                }
+            }
+            let (ng, _) = self.cvs[me].wait_timeout(g, Duration::from_secs(5)).unwrap_or_else(|e| e.into_inner());
+            g = ng;
+        }
+    }
+
+    /// Park until `me` holds the baton. Unwinds with [`Aborted`] if the run was aborted.
+    fn wait_for(&self, me: usize, mut g: MutexGuard<'_, Inner<E, J>>) {
+        loop {
+            if g.aborted.is_some() || g.shutdown {
                 drop(g);
                 std::panic::resume_unwind(Box::new(Aborted));
             }
@@ -147,13 +221,7 @@ impl<E: Send + 'static> Baton<E> {
         }
     }
 
-    /// Task: wait for the first turn.
-    pub fn wait_turn(&self, me: usize) {
-        let g = self.lock();
-        self.wait_for(me, g);
-    }
-
-    /// Task (baton holder): append a history event.
+    /// Baton holder (or the controller while nobody runs): append a history event.
     pub fn record(&self, e: E) {
         let mut g = self.lock();
         g.log.push(Entry::Event(e));
@@ -176,27 +244,43 @@ impl<E: Send + 'static> Baton<E> {
             std::panic::resume_unwind(Box::new(Aborted));
         }
         let n = g.done.len();
-        let others: Vec<usize> = (1..n).map(|d| (me + d) % n).filter(|&t| !g.done[t]).collect();
-        let next = if others.is_empty() {
+        let mut others = [0usize; MAX_TASKS];
+        let mut m = 0;
+        for d in 1..n {
+            let t = (me + d) % n;
+            if !g.done[t] {
+                others[m] = t;
+                m += 1;
+            }
+        }
+        let next = if m == 0 {
             me
         } else {
-            let c = Self::take_choice(&mut g, others.len() + 1, true);
+            let c = Self::take_choice(&mut g, m + 1, true);
             if c == 0 { me } else { others[c - 1] }
         };
-        g.log.push(Entry::Point { thread: me as u8, site, next: next as u8 });
+        g.log.push(Entry::Point { thread: me as u8, site, next: next as u8, choice: m > 0 });
         g.progress += 1;
         if next != me {
             g.current = Some(next);
+            self.publish(&g);
+            let epoch = g.epoch;
+            drop(g);
             self.cvs[next].notify_all();
+            self.poll(me as u64 + 1, epoch - 1);
+            let g = self.lock();
             self.wait_for(me, g);
         }
     }
 
-    /// Task (baton holder): finished; hand the baton on.
+    /// Task: finished; hand the baton on.
     pub fn finish(&self, me: usize) {
         let mut g = self.lock();
+        if me >= g.done.len() {
+            return;
+        }
         if g.current != Some(me) {
-            // aborted while running (only the watchdog does that); nothing to hand over
+            // aborted while parked: nothing to hand over
             g.done[me] = true;
             drop(g);
             self.ctl.notify_all();
@@ -209,9 +293,10 @@ impl<E: Send + 'static> Baton<E> {
             1 => Some(runnable[0]),
             m => Some(runnable[Self::take_choice(&mut g, m, false)]),
         };
-        g.log.push(Entry::End { thread: me as u8, next: next.map(|t| t as u8) });
+        g.log.push(Entry::End { thread: me as u8, choice: runnable.len() >= 2 });
         g.current = next;
         g.progress += 1;
+        self.publish(&g);
         drop(g);
         match next {
             Some(t) => self.cvs[t].notify_all(),
@@ -219,8 +304,16 @@ impl<E: Send + 'static> Baton<E> {
         }
     }
 
-    /// Controller: wait until every task has finished. `Err` = harness trouble.
+    /// Controller: wait until every task has finished. `Err` = harness trouble
+    /// (the executor must not be used again).
     pub fn wait_all(&self) -> Result<Outcome<E>, String> {
+        {
+            let epoch = self.lock().epoch;
+            // a run is a few microseconds of work for the memory cache
+            for _ in 0..4 {
+                self.poll(0, epoch - 1);
+            }
+        }
         let mut g = self.lock();
         let mut last_progress = g.progress;
         let mut since = Instant::now();
@@ -230,6 +323,8 @@ impl<E: Send + 'static> Baton<E> {
             }
             if g.done.iter().all(|d| *d) {
                 let unused = g.schedule.len().saturating_sub(g.pos);
+                g.job = None;
+                g.current = None;
                 return Ok(Outcome { log: std::mem::take(&mut g.log), choices: std::mem::take(&mut g.choices), unused });
             }
             let (ng, _) = self.ctl.wait_timeout(g, Duration::from_millis(500)).unwrap_or_else(|e| e.into_inner());
@@ -240,7 +335,7 @@ impl<E: Send + 'static> Baton<E> {
             } else if since.elapsed() >= HANDOVER_LIMIT {
                 let holder = g.current;
                 let last = g.log.iter().rev().find_map(|e| match e {
-                    Entry::Point { thread, site, next } => Some(format!("last point: task {thread} at {site} -> task {next}")),
+                    Entry::Point { thread, site, next, .. } => Some(format!("last point: task {thread} at {site} -> task {next}")),
                     _ => None,
                 });
                 let msg = format!(
@@ -256,9 +351,13 @@ impl<E: Send + 'static> Baton<E> {
             }
         }
     }
-}
 
-/// Number of pre-emptions a run took.
-pub fn preemptions(choices: &[Choice]) -> usize {
-    choices.iter().filter(|c| c.preemptive && c.chosen != 0).count()
+    /// Controller: the executor goes away; parked workers exit.
+    pub fn shutdown(&self) {
+        let mut g = self.lock();
+        g.shutdown = true;
+        g.job = None;
+        drop(g);
+        self.wake_everyone();
+    }
 }
